@@ -17,6 +17,8 @@ corpus/C17.sx + the directed scenarios keep one regression case per defect, whic
   *:constraint-sill:no-goulard:not-satisfied               sill constraint applied to the square root                               C17_8
   Model::fit:constraint-on-parameter-not-inferred:not-satisfied (angle half)                                                        C17_9
   Model::fit:exception-null-ellipsoid-radius               Tensor exception leaving Model::fit                                      C17_10
+  impl-vs-spec:*:constant-sill-with-sill-item:accepted, :total-sill-differs-from-imposed   sill item + constant sill: total dropped silently   C17_11
+  impl-vs-spec:*:constant-sill-vector:total-sill-differs-from-imposed   (seeded change C17_2: per-variable totals overwritten by the scalar)
 Known findings that remain (deterministic: directed scenario or corpus case for each):
   Model::fit:constraint-on-parameter-not-inferred:not-satisfied     a constraint on an anisotropy range the library decides not to infer
                                                                     (one direction, or isotropy forced by the geometry) is dropped silently
@@ -561,6 +563,56 @@ def stage_map(ctx, exe, runner, quick):
             ctx.violation('model-drift:' + site, 'the Model written differs from coq/C17/ModelMap.v although every stated rule (written / locked / isotropic ranges, angles, third parameter, PSD sills) holds',
                           {'case': sx_str(c), 'impl': sx_str(ii), 'model': sx_str(mi)}, found_input=False)
 
+def cons_forms(c11):
+    """(scalar or None, list of per-variable entries) of the constant-sill field of a fit case"""
+    if c11 == []: return None, None
+    if isinstance(c11[0], int): return undy(c11), []
+    return undy(c11[0]), [undy(x) for x in c11[1]]
+
+def imposed_totals(c11, nvar, vector_alone_counts=True):
+    """the total sill imposed on each variable (C17_constant_sill_expand): the user's entry where given, the scalar elsewhere;
+    None = no constraint on that variable"""
+    val, sills = cons_forms(c11)
+    if sills is None: return [None] * nvar
+    return [(sills[v] if v < len(sills) else val) for v in range(nvar)]
+
+def stage_consill(ctx, exe, runner, quick):
+    """Constraints: constant-sill value, per-variable vector, expandConstantSill, isConstraintSillDefined, copies"""
+    rng = ctx.rng
+    N = 80 if quick else 800
+    icases = []
+    for i in range(N):
+        val = Fraction(rng.randint(1, 16), 4) if rng.random() < .8 else None
+        sills = [(Fraction(rng.randint(1, 40), 8) if rng.random() < .85 else None) for _ in range(rng.choice([0, 0, 1, 2, 2, 3, 4]))]
+        icases.append([8, dy(val), [dy(x) for x in sills], rng.randint(1, 4), rng.randint(1, 4)])
+        ctx.dist('consill_%s_%s' % ('scalar' if val is not None else 'noscalar', 'vector%d' % len(sills) if sills else 'novector'))
+    res = both(ctx, exe, runner, 'consill', icases, lambda c, ii: [11] + c[1:])
+    fn = 'Constraints::expandConstantSill'
+    for c, ii, mc, mi in res:
+        ctx.count(sx_str(c))
+        if crashed(ii):
+            ctx.found_input = True; ctx.violation('crash:' + fn, 'no answer', {'case': sx_str(c)}); continue
+        val = undy(c[1]); user = [undy(x) for x in c[2]]; n1, n2 = c[3], c[4]
+        defined, e1, e2, ecopy, orig = ii[0], [undy(x) for x in ii[1]], [undy(x) for x in ii[2]], [undy(x) for x in ii[3]], [undy(x) for x in ii[4]]
+        viol = None
+        for name, got, n, base in (('first expansion', e1, n1, user), ('expansion of a copy', ecopy, n1, user), ('second expansion', e2, n2, e1)):
+            if len(got) != n: viol = ('wrong-length', '%s to %d variables has %d entries' % (name, n, len(got))); break
+            for v in range(n):
+                want = base[v] if v < len(base) else val
+                if got[v] != want:
+                    viol = ('user-entry-overwritten' if v < len(base) else 'scalar-not-appended',
+                            '%s: variable %d gets %s, the %s is %s' % (name, v, fl(got[v]), 'entry already there' if v < len(base) else 'scalar value', fl(want))); break
+            if viol: break
+        if viol is None and orig != user: viol = ('copy-shares-the-vector', 'expanding a copy changed the original object: %s' % [fl(x) for x in orig])
+        if viol is None and bool(defined) != (val is not None or len(user) > 0): viol = ('isConstraintSillDefined', 'answers %d for value %s, vector %s' % (defined, fl(val), [fl(x) for x in user]))
+        m1 = [unq(x) for x in mi[1]]; m2 = [unq(x) for x in mi[2]]
+        if viol:
+            ctx.ndis += 1; ctx.found_input = True
+            ctx.violation('impl-vs-spec:%s:%s' % (fn, viol[0]), viol[1], {'case': sx_str(c), 'impl': sx_str(ii), 'model': sx_str(mi)})
+        elif not (bool(defined) == bool(mi[0]) and e1 == m1 and e2 == m2):
+            ctx.ndis += 1
+            ctx.violation('model-drift:' + fn, 'impl and model differ, the expansion rule holds', {'case': sx_str(c), 'impl': sx_str(ii), 'model': sx_str(mi)}, found_input=False)
+
 def stage_alpha(ctx, exe, runner, quick):
     """constant sill: st_updateAlphaDiag / AModelOptimSills::_updateAlphaDiag"""
     rng = ctx.rng
@@ -832,7 +884,10 @@ def gen_fit_case(rng, tag, quick):
         if rng.random() < .1 and items:      # a pair lower > upper on the same parameter
             it = list(items[0]); it[5] = T_LOWER; it[6] = dy(undy(it[6]) + 5); up = list(items[0]); up[5] = T_UPPER
             items = [it, up] + items[1:]
-    cons_sill = dy(Fraction(rng.choice([1, 2, 4]))) if (rng.random() < .12 and opts[1]) else []
+    cons_sill = dy(Fraction(rng.choice([1, 2, 4]))) if (rng.random() < .16 and opts[1]) else []
+    if cons_sill != [] and rng.random() < .5:      # per-variable totals: full vector, partial vector + scalar, entry left free
+        k = rng.randint(1, nvar)
+        cons_sill = [cons_sill, [dy(Fraction(rng.randint(2, 12), 4)) if rng.random() < .9 else [] for _ in range(k)]]
     if path == 1 or cons_sill != []: mauto[0] = min(mauto[0], 50)      # keeps the quick tier quick (maxiter also bounds every inner Goulard run)
     return [10, path, ndim, nvar, data, dirs, edits, types, opts, mauto, items, cons_sill, 1, tag]
 
@@ -915,6 +970,11 @@ def check_fit_result(ctx, c, ii):
     if status == -5: return []
     if status != 0:
         ctx.dist('fit_failure_reported'); return []
+    # P7 (C17_constant_sill_with_sill_item_refused): a constraint item on a sill switches Goulard off, so a constant-sill
+    #    constraint given with it cannot be enforced: the fit must refuse the combination instead of returning a model
+    if path in (0, 1) and cons_sill != [] and any(it[2] == E_SILL for it in items):
+        out.append(('impl-vs-spec:%s:constant-sill-with-sill-item:accepted' % PATHS[path],
+                    'a constraint item on a sill is combined with the constant-sill constraint and the fit returns a model (status 0) instead of refusing'))
     ctx.dist('fit_status_ok')
     S = []
     for st in structs:
@@ -991,6 +1051,19 @@ def check_fit_result(ctx, c, ii):
                 out.append(('impl-vs-spec:%s:locked-direction-differs-from-first-range' % PATHS[path],
                             'structure %d (type %d): ranges %s; the ranges of rank %s are not parameters of this fit (inferred ranks: %s) and must equal the range of rank 0'
                             % (k, st['type'], [fl(x) for x in r], badk, sorted(ranks)))); break
+    # P6 constant sill (C17_constant_sill_expand / _to_goulard): the diagonal sills of variable v add up to the total imposed on v
+    if cons_sill != [] and opts[1] and not opts[9] and len(S) > 0:
+        val, _ = cons_forms(cons_sill)
+        tot = imposed_totals(cons_sill, nvar)
+        for v in range(nvar):
+            if tot[v] is None or any(st['sill'][v][v] is None for st in S): continue
+            got = sum(st['sill'][v][v] for st in S)
+            if abs(got - tot[v]) > Fraction(1, 10**6) * (1 + abs(tot[v])):
+                form = 'scalar' if isinstance(cons_sill[0], int) else ('vector-without-scalar' if val is None else 'vector')
+                if any(it[2] == E_SILL for it in items): form = 'with-sill-item'      # a ConsItem on a sill switches Goulard (hence the constant sill) off
+                out.append(('impl-vs-spec:%s:constant-sill-%s:total-sill-differs-from-imposed%s' % (PATHS[path], form, ':after-reduction' if len(S) < len(types) and form != 'with-sill-item' else ''),
+                            'variable %d: the sills of the %d structure(s) add up to %s, the total imposed by the user is %s (constraint: value %s, per-variable %s)'
+                            % (v, len(S), fl(got), fl(tot[v]), fl(val), [fl(x) for x in cons_forms(cons_sill)[1]]))); break
     # P5 save / reload / krige
     saved, reloaded, same, krig, nfinite, minstd = post
     if not out and not constant_data(c):
@@ -1169,6 +1242,13 @@ def directed_fit_cases():
     add(0, 2, p2, dirs2(2), [0, 2], O())
     add(0, 2, p2, dirs2(2), [0, 2], O(), cons=D(2))                                          # constant sill, two variables
     add(0, 1, p1, dirs2(2), [0, 2], O(), cons=D(2))
+    # per-variable totals: full vector, partial vector + scalar, scalar with one variable left free, mono vector, vector alone
+    add(0, 2, p2, dirs2(2), [0, 2], O(), cons=[D(1), [D(1), D(2)]], maxiter=100)
+    add(0, 2, p2, dirs2(2), [0, 2], O(), cons=[D(1), [D(2)]], maxiter=100)
+    add(0, 2, p2, dirs2(2), [0, 2], O(), cons=[D(1), [[], D(2)]], maxiter=100)
+    add(0, 1, p1, dirs2(2), [0, 2], O(), cons=[D(1), [D(Fraction(3, 2))]], maxiter=100)
+    add(2, 2, p2, dirs2(2), [0, 2], O(), cons=[D(1), [D(1), D(2)]], maxiter=100)
+    add(0, 1, p1, dirs2(2), [0, 2], O(), [[0, 1, E_SILL, 0, 0, T_LOWER, D(Fraction(1, 16))]], cons=D(3), maxiter=100)   # constant sill + a sill item: must be refused (regression case of fixes/C17_11)
     add(0, 2, p2, dirs2(2), [0, 2], O(intrinsic=1))
     add(0, 2, p2, dirs2(2), [0, 2], O(goulard=0))                                           # must be refused
     add(0, 2, ph, dirs2(2), [0, 2], O())                                                    # variables never known together
@@ -1211,6 +1291,8 @@ def directed_fit_cases():
     vals = [[D(Fraction(round((math.sin(i / 3.) + math.cos(j / 2.) + 0.3 * rng.gauss(0, 1)) * 64), 64))] for j in range(10) for i in range(10)]
     out.append([10, 1, 2, 1, [10, 10, vals, 4], [], [], [0, 2], O(), [50, 2], [], [], 1, 0])
     out.append([10, 1, 2, 1, [10, 10, vals, 4], [], [], [0, 2], O(aniso=0), [50, 2], [], [], 1, 0])
+    out.append([10, 1, 2, 1, [10, 10, vals, 4], [], [], [0, 2], O(), [50, 2], [], D(2), 1, 0])
+    out.append([10, 1, 2, 1, [10, 10, vals, 4], [], [], [0, 2], O(), [50, 2], [], [D(1), [D(2)]], 1, 0])
     out.append([10, 1, 2, 1, [10, 10, vals, 4], [], [], [0, 2], O(rot=0), [50, 2], [], [], 1, 0])
     out.append([10, 1, 2, 1, [10, 10, vals, 4], [], [], [0, 2], O(), [50, 2], [[0, 1, E_RANGE, 0, 0, T_UPPER, D(3)]], [], 1, 0])
     out.append([10, 1, 2, 1, [10, 10, vals, 4], [], [], [0, 2], O(goulard=0), [50, 2], [[0, 1, E_SILL, 0, 0, T_EQUAL, D(4)]], [], 1, 0])
@@ -1258,7 +1340,7 @@ def run(ctx):
     runner = build_runner(ctx); exe = build_c17_harness(ctx, ctx.hook)
     if runner is None or exe is None:
         print('ERROR: model runner or harness does not build'); sys.exit(3)
-    for name, fn in [('trunc', stage_trunc), ('params', stage_params), ('foxleg', stage_foxleg), ('map', stage_map), ('alpha', stage_alpha), ('goulard', stage_goulard), ('fit', stage_fit)]:
+    for name, fn in [('trunc', stage_trunc), ('params', stage_params), ('foxleg', stage_foxleg), ('map', stage_map), ('consill', stage_consill), ('alpha', stage_alpha), ('goulard', stage_goulard), ('fit', stage_fit)]:
         t = time.time(); fn(ctx, exe, runner, quick); ctx.log('%s: %.1fs, %d evaluations so far' % (name, time.time() - t, ctx.cov['evaluations']))
     ctx.cov['disagreements'] = ctx.ndis
     ctx.level = 'proof of the projection / clamping steps, sampled post-conditions elsewhere'
